@@ -199,6 +199,15 @@ func TestVF_CacheRace(t *testing.T) {
 				}
 			}()
 		}
+		for i := 0; i < 6; i++ { // readers of the writers' keys: a lookup that saw the expired value must not undo the live one stored since
+			wg2.Add(1)
+			go func(i int) {
+				defer wg2.Done()
+				for n := 0; time.Now().Before(end); n++ {
+					big.Get(fmt.Sprintf("writer%d", (i+n)%8))
+				}
+			}(i)
+		}
 		fin := make(chan struct{})
 		go func() { wg2.Wait(); close(fin) }()
 		select {
